@@ -545,19 +545,35 @@ func falseImplies(h *ssa.Function, ri int, pred func(b *ssa.BasicBlock, extra []
 	return n > 0
 }
 
-// deepDefsCells is deepDefs that also sees through the fields of a record private to the function v belongs to.
+// deepDefsCells is deepDefs that also sees through the fields of a record private to the function that reads them.
 func deepDefsCells(v ssa.Value, scope []*ssa.Function) []ssa.Value {
-	var owner *ssa.Function
-	switch x := v.(type) {
-	case ssa.Instruction:
-		owner = x.Parent()
-	case *ssa.Parameter:
-		owner = x.Parent()
-	case *ssa.FreeVar:
-		owner = x.Parent()
+	var out []ssa.Value
+	seen := map[ssa.Value]bool{}
+	var rec func(v ssa.Value, depth int)
+	rec = func(v ssa.Value, depth int) {
+		for _, d := range deepDefs(v, scope) {
+			if seen[d] {
+				continue
+			}
+			seen[d] = true
+			if ld, isLd := d.(*ssa.UnOp); isLd && ld.Op == token.MUL && depth < 4 {
+				if _, isFA := ld.X.(*ssa.FieldAddr); isFA {
+					rs := resolveCells(d, ld.Parent(), scope)
+					if len(rs) != 1 || rs[0] != d {
+						for _, x := range rs {
+							if x == d {
+								out = append(out, d)
+							} else {
+								rec(x, depth+1)
+							}
+						}
+						continue
+					}
+				}
+			}
+			out = append(out, d)
+		}
 	}
-	if owner == nil {
-		return deepDefs(v, scope)
-	}
-	return resolveCells(v, owner, scope)
+	rec(v, 0)
+	return out
 }
